@@ -147,6 +147,12 @@ def expr_texts(ops, model, acc=None, seen=None):
     return acc
 
 
+def dname(merges=True):
+    """the model's dialect constant for the SQLiteModel under test (the FULL-join emulation is used only below SQLite 3.39)"""
+    import sqlite3
+    return "d_sqlite" + ("_pre339" if sqlite3.sqlite_version_info < (3, 39, 0) else "") + ("" if merges else "_nomerge")
+
+
 def make_model(merges=True):
     import data_algebra.SQLite
     m = data_algebra.SQLite.SQLiteModel()
@@ -168,14 +174,14 @@ def struct_term(case, merges=True):
     except Exception as e:          # noqa
         case.gen_error = f"{type(e).__name__}: {str(e)[:120]}"
     obs = "None" if q is None else "(Some %s)" % ser(q, model)
-    d = "d_sqlite" if merges else "d_sqlite_nomerge"
+    d = dname(merges)
     top = case.script["op"] in ("select_columns",)
     return "CStruct %s %s %s %s %s" % (d, cop, ctxt, obs, cbool(top))
 
 
 def sem_term(case, res):
     ordered = X.order_is_total(case.script, res)
-    return "CSem d_sqlite %s %s %s %s %s" % (semconv.cop(case.ops), semconv.cenv(case.frames), semconv.ctable(res), cbool(ordered),
+    return "CSem %s %s %s %s %s %s" % (dname(True), semconv.cop(case.ops), semconv.cenv(case.frames), semconv.ctable(res), cbool(ordered),
                                             cbool(X.defines_column_order(case.script)))
 
 
@@ -314,7 +320,7 @@ def run(chk):
             for merges in (True, False):
                 terms.append(struct_term(c, merges))
                 index.append((ci, "struct", merges))
-            terms.append("CDistinct d_sqlite %s" % semconv.cop(c.ops))
+            terms.append("CDistinct %s %s" % (dname(True), semconv.cop(c.ops)))
             index.append((ci, "distinct", True))
         except (Unsupported, semconv.Unsupported) as u:
             chk.dist("unsupported:" + str(u).split()[0])
@@ -358,7 +364,7 @@ def still_fails(kind, merges):
             if kind == "struct":
                 t = struct_term(case, merges)
             elif kind == "distinct":
-                t = "CDistinct d_sqlite %s" % semconv.cop(case.ops)
+                t = "CDistinct %s %s" % (dname(True), semconv.cop(case.ops))
             else:
                 res, err = case.result("sqlite")
                 if res is None:
